@@ -32,6 +32,7 @@ func init() {
 	gens["c05-case"] = c05Case
 	gens["c05-saddr-bytes"] = c05SaddrBytes
 	gens["c05-prefix"] = c05Prefix
+	gens["c05-amounts"] = c05Amounts
 }
 
 // c05Long: LONG values - fixed-size buffers and limits inside the parser sit far above the
@@ -278,6 +279,8 @@ func c05Case(c *enumx.Ctx) {
 								continue
 							}
 							parseLine(c, pre+ty+"SYSCALL "+ms+au+tail)
+							parseLine(c, pre+ty+"syscall "+ms+au+tail)
+							parseLine(c, ty+"User_Login "+ms+au+tail)
 							parseLine(c, ty+"SYSCALL "+pre+" "+ms+au+tail)
 							parseLine(c, pre+" "+ms+au+tail)
 							parseBody(c, 1300, pre+au+tail)
@@ -336,6 +339,30 @@ func c05Long(c *enumx.Ctx) {
 
 // c05TypeNames: every sequence of <=4 (quick) / <=5 (thorough) pieces as the type
 // name of an otherwise valid line, and through the text (un)marshalling entry points.
+// c05Amounts: ONE record with very many fields: EXECVE records whose argc arguments are all present, for argc around
+// every power of ten up to 10^5 (the width of a decimal index) and around 2^16 / 2^17, SYSCALL-like records with as many
+// key=value pairs.
+func c05Amounts(c *enumx.Ctx) {
+	for _, n := range []int{9, 10, 11, 99, 100, 101, 999, 1000, 1001, 9999, 10000, 10001, 65535, 65536, 65537, 99999, 100000, 100001, 131072, 131073} {
+		if !c.Mine() {
+			continue
+		}
+		var b strings.Builder
+		fmt.Fprintf(&b, "audit(1700000000.123:42): argc=%d", n)
+		for i := 0; i < n; i++ {
+			fmt.Fprintf(&b, " a%d=\"x\"", i)
+		}
+		parseBody(c, 1309, b.String())
+		var k strings.Builder
+		k.WriteString("audit(1700000000.123:42): arch=c000003e syscall=2")
+		for i := 0; i < n; i++ {
+			fmt.Fprintf(&k, " k%d=%d", i, i)
+		}
+		parseBody(c, 1300, k.String())
+	}
+	c.Sample("Parse(1309, argc=100001 with a0..a100000 present)")
+}
+
 func c05TypeNames(c *enumx.Ctx) {
 	pieces := []string{"UNKNOWN", "unknown", "[", "]", "1329", "0", "65535", "65536", "-1", "SYSCALL", "_", " ", "x", "99999999999999999999", "\x00", "="}
 	maxLen := 4
@@ -476,7 +503,12 @@ func sameErr(a, b error) bool {
 func parseLine(c *enumx.Ctx, line string) {
 	c.Begin(func() string { return "ParseLogLine(" + strconv.Quote(line) + ")" })
 	c.Try("C05", func() {
+		keep := strings.Clone(line)
 		m, err := auparse.ParseLogLine(line)
+		if line != keep {
+			c.Report("C05 input-modified", fmt.Sprintf("after ParseLogLine the caller's line reads %q; it was %q (a Go string is immutable)", line, keep), nil)
+			return
+		}
 		if (m == nil) != (err != nil) {
 			c.Report("C05 nil-xor-error", fmt.Sprintf("ParseLogLine(%q) = (%v, %v)", line, m, err), nil)
 			return
@@ -490,9 +522,17 @@ func parseLine(c *enumx.Ctx, line string) {
 func parseBody(c *enumx.Ctx, typ uint16, raw string) {
 	c.Begin(func() string { return fmt.Sprintf("Parse(%d, %s)", typ, strconv.Quote(raw)) })
 	c.Try("C05", func() {
+		keep := strings.Clone(raw)
 		m, err := auparse.Parse(auparse.AuditMessageType(typ), raw)
 		if (m == nil) != (err != nil) {
 			c.Report("C05 nil-xor-error", fmt.Sprintf("Parse(%d, %q) = (%v, %v)", typ, raw, m, err), nil)
+			return
+		}
+		if m != nil {
+			_, _ = m.Data()
+		}
+		if raw != keep {
+			c.Report("C05 input-modified", fmt.Sprintf("after Parse + Data the caller's text reads %q; it was %q (a Go string is immutable)", raw, keep), nil)
 			return
 		}
 		if m != nil {
